@@ -7,7 +7,7 @@
     met is visited — given the CLOSURE invariant (every visited fragment that is not still being expanded has all
     its reachable nodes already appeared and all its names visited); ranks exclude the fragments in progress.
 -/
-import PyGqlModel.Props.C04_seq
+import PyGqlModel.Lemmas.C04Seq
 import PyGqlModel.Props.C04_total
 
 set_option linter.unusedSimpArgs false
